@@ -56,9 +56,13 @@ struct JobResult {
 /// runs while sizes, times, addresses and every application-visible result do not. The action labels
 /// are left out too: two schedules with the same observable behaviour have the same hash, so the
 /// number of distinct hashes counts distinct behaviours (vacuity counter).
-fn trace_hash(r: &Record) -> u128 {
+fn trace_hash(r: &Record, garbled: bool) -> u128 {
     let mut s = String::new();
-    for d in &r.dgrams {
+    // Executions with garbled copies: how many of the replies a garbled datagram provokes
+    // (UnknownPathSecret / StaleKey control packets) actually leave depends on state keyed by the
+    // per-run random credentials inside the map, so the datagram log differs by a few entries between
+    // runs; what the applications observe (below) does not, and that is what is compared.
+    for d in r.dgrams.iter().filter(|_| !garbled) {
         s.push_str(&format!("d{},{},{},{},{};", d.idx, d.t, d.src, d.dst, d.len));
     }
     for c in &r.calls {
@@ -76,7 +80,7 @@ fn run_job(cases: &BTreeMap<String, Vec<Case>>, job: &Job) -> JobResult {
     let r = execute(&case.scn, &job.schedule);
     let violations = monitors::check(&case.scn, &job.schedule, &r);
     let n = if case.scn.tcp.is_some() { r.calls.len() } else { r.dgrams.len() };
-    JobResult { lens: r.wire_len, bounds: r.bounds.clone(), n_dgrams: n, hash: format!("{:032x}", trace_hash(&r)), outcome: monitors::outcome_class(&r), violations, crashed: false, hung: false, panicked: r.panicked.is_some(), end_t: r.end_t }
+    JobResult { lens: r.wire_len, bounds: r.bounds.clone(), n_dgrams: n, hash: format!("{:032x}", trace_hash(&r, job.schedule.iter().any(|(_, a)| *a == Action::Garble))), outcome: monitors::outcome_class(&r), violations, crashed: false, hung: false, panicked: r.panicked.is_some(), end_t: r.end_t }
 }
 
 fn result_to_json(r: &JobResult) -> Json {
@@ -607,7 +611,7 @@ fn replay_main(path: &str) {
     let schedule = parse_schedule(sched_s).expect("schedule");
     let r = execute(&scn, &schedule);
     let violations = monitors::check(&scn, &schedule, &r);
-    println!("replay: scenario {} schedule [{}] datagrams {} socket calls {} outcome {} trace {:032x}", scn.name, sched_s, r.dgrams.len(), r.calls.len(), monitors::outcome_class(&r), trace_hash(&r));
+    println!("replay: scenario {} schedule [{}] datagrams {} socket calls {} outcome {} trace {:032x}", scn.name, sched_s, r.dgrams.len(), r.calls.len(), monitors::outcome_class(&r), trace_hash(&r, false));
     if violations.is_empty() {
         println!("replay: no violation");
     } else {
@@ -752,7 +756,7 @@ fn main() {
                 for _ in 0..20 {
                     let r = execute(&scn, &sched);
                     n = r.calls.len();
-                    h = trace_hash(&r);
+                    h = trace_hash(&r, false);
                 }
                 println!("{}: {:?} per execution, {} socket calls, trace {:032x}", scn.name, t0.elapsed() / 20, n, h);
                 return;
@@ -762,7 +766,7 @@ fn main() {
             }
             let t0 = std::time::Instant::now();
             let r = execute(&scn, &sched);
-            println!("{} [{}]: wall {:?} calls={} wire={:?} bounds={:?} app={} end_t={}us panicked={:?} trace={:032x} outcome={}", scn.name, schedule_string(&sched), t0.elapsed(), r.calls.len(), r.wire_len, r.bounds, r.app.len(), r.end_t, r.panicked.as_ref().map(|p| p.lines().take(4).collect::<Vec<_>>().join(" | ")), trace_hash(&r), monitors::outcome_class(&r));
+            println!("{} [{}]: wall {:?} calls={} wire={:?} bounds={:?} app={} end_t={}us panicked={:?} trace={:032x} outcome={}", scn.name, schedule_string(&sched), t0.elapsed(), r.calls.len(), r.wire_len, r.bounds, r.app.len(), r.end_t, r.panicked.as_ref().map(|p| p.lines().take(4).collect::<Vec<_>>().join(" | ")), trace_hash(&r, false), monitors::outcome_class(&r));
             let verbose = std::env::var("DCMC_VERBOSE").is_ok();
             if verbose {
                 for c in &r.calls {
@@ -803,7 +807,7 @@ fn main() {
                 for _ in 0..20 {
                     let r = execute(&scn, &sched);
                     n = r.dgrams.len();
-                    h = trace_hash(&r);
+                    h = trace_hash(&r, false);
                 }
                 println!("{}: {:?} per execution, {} datagrams, trace {:032x}", scn.name, t0.elapsed() / 20, n, h);
                 return;
@@ -813,7 +817,7 @@ fn main() {
             }
             let t0 = std::time::Instant::now();
             let r = execute(&scn, &sched);
-            println!("{} [{}]: wall {:?} dgrams={} app={} end_t={}us panicked={:?} maxlen={} trace={:032x} outcome={}", scn.name, schedule_string(&sched), t0.elapsed(), r.dgrams.len(), r.app.len(), r.end_t, r.panicked.as_ref().map(|p| p.lines().take(4).collect::<Vec<_>>().join(" | ")), r.max_dgram_len, trace_hash(&r), monitors::outcome_class(&r));
+            println!("{} [{}]: wall {:?} dgrams={} app={} end_t={}us panicked={:?} maxlen={} trace={:032x} outcome={}", scn.name, schedule_string(&sched), t0.elapsed(), r.dgrams.len(), r.app.len(), r.end_t, r.panicked.as_ref().map(|p| p.lines().take(4).collect::<Vec<_>>().join(" | ")), r.max_dgram_len, trace_hash(&r, false), monitors::outcome_class(&r));
             let verbose = std::env::var("DCMC_VERBOSE").is_ok();
             if verbose {
                 for d in &r.dgrams {
